@@ -380,5 +380,173 @@ theorem C03_layerB_retained_read {cfg : Cfg} {now : Nat} {seeds : List Nat} {cli
       rw [(ref_pool_step hpc hs).2] at hres
       exact (res_set_head hres).symm
 
+
+/-! ## 5  concrete runs: non-vacuity, and no premise can be dropped
+
+  Checkers: `allAt h f` evaluates `f` on every action of a history (index, state before, action); the `…_check` lemmas turn
+  a successful evaluation into the quantified premise. -/
+
+/-- `f` holds of every action of the history (index from the oldest, state before it, action) -/
+def allAtGo (f : Nat → BState → Act → Bool) : List (BState × Act) → Nat → Bool
+  | [], _ => true
+  | (s, a) :: l, n => f n s a && allAtGo f l (n + 1)
+
+def allAt (h : List (BState × Act)) (f : Nat → BState → Act → Bool) : Bool := allAtGo f h.reverse 0
+
+theorem allAtGo_sound {f : Nat → BState → Act → Bool} : ∀ (l : List (BState × Act)) (n : Nat), allAtGo f l n = true →
+    ∀ q s a, l[q]? = some (s, a) → f (n + q) s a = true
+  | [], _, _, q, s, a, hq => by simp at hq
+  | (s0, a0) :: l, n, hc, q, s, a, hq => by
+    simp only [allAtGo, Bool.and_eq_true] at hc
+    cases q with
+    | zero =>
+      simp only [List.getElem?_cons_zero, Option.some.injEq, Prod.mk.injEq] at hq
+      obtain ⟨rfl, rfl⟩ := hq
+      exact hc.1
+    | succ q =>
+      simp only [List.getElem?_cons_succ] at hq
+      have := allAtGo_sound l (n + 1) hc.2 q s a hq
+      rw [show n + (q + 1) = n + 1 + q by omega]
+      exact this
+
+theorem allAt_sound {h : List (BState × Act)} {f : Nat → BState → Act → Bool} (hc : allAt h f = true) :
+    ∀ q s a, At h q (s, a) → f q s a = true := by
+  intro q s a hx
+  have := allAtGo_sound h.reverse 0 hc q s a hx
+  simpa using this
+
+theorem liveDuring_check {h : List (BState × Act)} {k lo hi : Nat}
+    (hc : allAt h (fun q s _ => !(decide (lo ≤ q) && decide (q ≤ hi)) || decide (LiveK k s)) = true) :
+    LiveDuring k h lo hi := by
+  intro q s a h1 h2 hx
+  have := allAt_sound hc q s a hx
+  simpa [h1, h2] using this
+
+theorem noDanger_check {h : List (BState × Act)} {k lo hi : Nat}
+    (hc : allAt h (fun q _ a => !(decide (lo < q) && decide (q < hi)) ||
+      (match a with | .issue _ r => !r.danger k | _ => true)) = true) :
+    ∀ q s i r, lo < q → q < hi → At h q (s, .issue i r) → r.danger k = false := by
+  intro q s i r h1 h2 hx
+  have := allAt_sound hc q s _ hx
+  simpa [h1, h2] using this
+
+theorem dangerIssued_check {h : List (BState × Act)} {k n : Nat} {P : Nat → Nat → Req → Prop}
+    [∀ q i r, Decidable (P q i r)]
+    (hc : allAt h (fun q _ a => !decide (q < n) ||
+      (match a with | .issue i r => !r.danger k || decide (P q i r) | _ => true)) = true) :
+    ∀ p i r, p < n → Issued h i r p → r.danger k = true → P p i r := by
+  rintro p i r hp ⟨s, hx⟩ hd
+  have := allAt_sound hc p s _ hx
+  simpa [hp, hd] using this
+
+/-- three clients, cache weight 200, two expiry shards -/
+def retCfg : Cfg := { maxWeight := 200, shards := 2, cmdCap := 4, poolSize := 1, bufSize := 2, counters := 2 }
+
+def retInit : BState := BState.init retCfg 0 [1, 2, 3, 4] 3
+
+def retHist (b0 : BState) (l : List (Act × Oracle)) : List (BState × Act) :=
+  match histOf b0 l [] with
+  | .ok (h, _) => h
+  | .error _ => []
+
+def retFinal (b0 : BState) (l : List (Act × Oracle)) : BState :=
+  match histOf b0 l [] with
+  | .ok (_, b) => b
+  | .error _ => b0
+
+def retOk (b0 : BState) (l : List (Act × Oracle)) : Bool :=
+  match histOf b0 l [] with
+  | .ok _ => true
+  | .error _ => false
+
+theorem retRunH {b0 : BState} {l : List (Act × Oracle)} (hok : retOk b0 l = true) :
+    RunH b0 (retHist b0 l) (retFinal b0 l) := by
+  unfold retOk at hok
+  unfold retHist retFinal
+  cases hh : histOf b0 l [] with
+  | error m => rw [hh] at hok; cases hok
+  | ok p =>
+    obtain ⟨h, b⟩ := p
+    exact runH_histOf l (.nil _) hh
+
+/-- one second -/
+def retS : Nat := 1000000000
+
+def retC (i : Nat) : Act × Oracle := (.client i, noO)
+def retCp (i : Nat) : Act × Oracle := (.client i, { pool := [0] })
+def retW : Act × Oracle := (.worker, noO)
+def retSw (v : Option Nat) : Act × Oracle := (.sweeper v, noO)
+def retI (i : Nat) (r : Req) : Act × Oracle := (.issue i r, noO)
+
+/-- **The run of the non-vacuity example** (100 actions).  Client 0 works on key 1, one operation after another;
+    clients 1 and 2 produce traffic on keys 2 and 3 and read key 1; the sweeper and the clock move in between. -/
+def retRun : List (Act × Oracle) :=
+  -- 0–4: client 0 puts key 1 (value 100, weight 5, time-to-live 10 s)
+  call 0 (.putW 1 100 5 (some (10 * retS))) 4 ++
+  -- 5–36: clients 1 and 2 put keys 2 and 3 (key 3 with a time-to-live of 1 s) while the worker applies the three puts
+  --       (`store.put` of key 1: action 18, answered by action 22); two empty sweeps
+  [retI 1 (.putW 2 200 4 none), retC 1, retW, retW, retI 2 (.putW 3 300 3 (some retS)), retC 1, retC 2, retW, retSw none,
+   retW, retC 1, retC 2, retW, retW, retSw none, retC 1, retC 2, retW, retC 2] ++ workerN 13 ++
+  -- 37–55: client 0 upserts key 1 to the value 101 — THE WRITE (issued 37, returns 48, answered by action 51) — while
+  --        client 1 deletes key 2 and client 2 reads key 3
+  [retI 0 (.upsert 1 (some 101) none none false), retI 1 (.delete 2), retC 0, retC 1, retI 2 (.get 3), retC 0, retC 2,
+   retC 1, retC 0, retC 2, retCp 2, retC 0, retC 1, retW, retW, retW, retW, retW, retW] ++
+  -- 56–66: the clock moves to 2 s, the sweep of shard 0 visits the id of key 1 (not due); to 3 s, the sweep of shard 1
+  --        finds key 3 expired and evicts it
+  [(.advance (2 * retS), noO), retSw none, retSw (some 1), retSw none, (.advance retS, noO), retSw none, retSw (some 3),
+   retSw none, retSw none, retSw none, retSw none] ++
+  -- 67–84: client 0 extends the time-to-live of key 1 (a value-less upsert: deadline 23 s); client 2 upserts key 3
+  --        (absent: it becomes a put)
+  [retI 0 (.upsert 1 none none (some (20 * retS)) false), retI 2 (.upsert 3 (some 301) none (some (5 * retS)) false),
+   retC 0, retC 2, retC 0, retC 2, retC 0, retC 2, retC 0, retC 2, retC 0, retW, retW, retW, retW, retW, retW, retW] ++
+  -- 85–99: the reads: `get(1)` by client 0 (lookup 91, returns 94), `get_ref(1)` by client 1 (lookup 92, returns 95),
+  --        `multi_get([3, 1, 2])` by client 2 (lookup of key 1: action 97)
+  [retI 0 (.get 1), retI 1 (.getRef 1), retI 2 (.mget [3, 1, 2] false), retC 0, retC 1, retC 2, retC 0, retC 1, retC 2,
+   retCp 0, retCp 1, retCp 2, retC 2, retCp 2, retC 2]
+
+set_option maxRecDepth 100000 in
+theorem retRun_ok : retOk retInit retRun = true := by decide
+
+
+/-- the history and the final state of `retRun` -/
+abbrev retH : List (BState × Act) := retHist retInit retRun
+abbrev retB : BState := retFinal retInit retRun
+
+theorem retRun_run : RunH { BState.init retCfg 0 [1, 2, 3, 4] 3 with storeShard := [] } retH retB :=
+  retRunH retRun_ok
+
+set_option maxRecDepth 100000 in
+/-- **Non-vacuity: every premise of `C03_layerB_retained'` holds of `retRun`** — key 1, the write
+    `put_or_update(1, Some(101))` issued by client 0 at 37 and answered `Accepted` by action 51, the incarnation born by
+    the `store.put` action 18, the lookups 91 (`get`), 92 (`get_ref`) and 97 (position 1 of `multi_get([3, 1, 2])`). -/
+theorem C03_layerB_retained_witness :
+    DemandFits retCfg retH ∧ NoShutdownReq retH ∧
+    (∃ s₀, At retH 37 (s₀, .issue 0 (.upsert 1 (some 101) none none false)) ∧
+      (∀ p i r, p < 37 → Issued retH i r p → r.danger 1 = true → AnsweredBy retH retB i p 37 s₀)) ∧
+    ((∀ x, At retH 18 x → isPutAny 1 x) ∧ LiveDuring 1 retH 19 37) ∧
+    AckedAcceptedAt retH retB 0 37 52 ∧
+    (∀ q s i r, 37 < q → q < 99 → At retH q (s, .issue i r) → r.danger 1 = false) ∧
+    LiveDuring 1 retH 37 99 ∧
+    (∃ s, At retH 91 (s, .client 0) ∧ s.cl[0]? = some (.getStore 1)) ∧
+    (∃ s, At retH 92 (s, .client 1) ∧ s.cl[1]? = some (.refStore 1)) ∧
+    (∃ s, At retH 97 (s, .client 2) ∧ s.cl[2]? = some (.mgetStore 1 [2] [some 301] false)) ∧
+    Issued retH 0 (.get 1) 85 ∧ Returned retH retB 0 94 (.value (some 101)) ∧
+    Issued retH 1 (.getRef 1) 86 ∧ Returned retH retB 1 95 (.value (some 101)) := by
+  refine ⟨by decide, by decide, ⟨_, rfl, ?_⟩, ⟨?_, liveDuring_check (by decide)⟩, ?_, noDanger_check (by decide),
+    liveDuring_check (by decide), ⟨_, rfl, rfl⟩, ⟨_, rfl, rfl⟩, ⟨_, rfl, rfl⟩, ⟨_, rfl⟩,
+    ⟨_, _, rfl, Or.inr ⟨_, rfl⟩, rfl, rfl⟩, ⟨_, rfl⟩, ⟨_, _, rfl, Or.inr ⟨_, rfl⟩, rfl, rfl⟩⟩
+  · -- the one put of key 1 issued before: client 0 at 0, returned at 4, answered by then
+    intro p i r hp hi hd
+    obtain ⟨rfl, rfl⟩ := dangerIssued_check (P := fun q i _ => q = 0 ∧ i = 0) (h := retH) (k := 1) (n := 37)
+      (by decide) p i r hp hi hd
+    exact ⟨4, .ack 0 .pending, ⟨by decide, ⟨_, _, rfl, Or.inr ⟨_, rfl⟩, rfl, rfl⟩, noIssue_check (by decide)⟩,
+      by decide, fun hd st e => by cases e; exact ⟨.accepted, rfl, by simp⟩⟩
+  · intro x hx
+    have h18 : At retH 18 (_, .worker) := rfl
+    cases hx.inj h18
+    exact ⟨100, 1, rfl, _, _, rfl, rfl, rfl, rfl, rfl⟩
+  · exact ⟨48, 3, .pending, _, _, ⟨by decide, ⟨_, _, rfl, Or.inr ⟨_, rfl⟩, rfl, rfl⟩, noIssue_check (by decide)⟩,
+      by decide, rfl, rfl⟩
+
 end B
 end Cached
